@@ -55,3 +55,69 @@ def engine():
 
 CONTRACTS = [SeriesConn()]
 VERIFY = CONTRACTS
+
+
+# ---------------------------------------------------------------------------------------------------------------------
+# generators._unused_name(m, name): the name Series gives its internal net / instance array - `name` followed by zero or
+# more underscores, and not a key of the module's namespace (so a unit port called `i` or `units` is never replaced).
+# ---------------------------------------------------------------------------------------------------------------------
+from .c_names import underscores_after
+
+
+class UnusedName(Contract):
+    key = "hdl21.generators:_unused_name"
+    props = ("C19", "C05")
+    raises = ()
+    returns = "str"
+
+    def scenarios(self, eng):
+        from hdl21.module import Module
+
+        def setup(eng, st):
+            return {"m": sym_ref(st, "m", (Module,)), "name": SStr(z3.String("base"))}
+        yield Scenario("any-namespace", setup)
+
+    def p_fresh(self, eng, st0, st, a, res):
+        ns = st0.heap.get("namespace", a.m.z)
+        return z3.And(z3.Select(ns, zstr(res)) == NULL, underscores_after(a.name.z, zstr(res)))
+    posts = property(lambda self: [("unused-and-recognisable", self.p_fresh)])
+
+
+def _unused_inv(eng, st_entry, st_now):
+    return underscores_after(zstr(st_entry.locals["name"]), zstr(st_now.locals["name"]))
+
+
+UNUSED_LOOPS = {("hdl21.generators:_unused_name", 0): LoopSpec(_unused_inv, modifies=(), locals_mod=("name",))}
+
+
+def unused_engine():
+    return mk_engine(loops=UNUSED_LOOPS)
+
+
+VERIFY_UNUSED = [UnusedName()]
+
+
+def series_site_audit():
+    """Syntactic call-site obligation on generators.Series: every object it names itself (a literal or computed name passed
+    to m.add / to the constructor of what is added) gets that name from _unused_name(m, ...).  -> list of offenders"""
+    import ast
+    from pyvc import loader
+    from hdl21.generators import Series
+    ext = loader.extract_func(Series.func)
+    bad = []
+    n_sites = 0
+    for n in ast.walk(ext.node):
+        if not (isinstance(n, ast.Call) and isinstance(n.func, ast.Attribute) and n.func.attr == "add"
+                and isinstance(n.func.value, ast.Name) and n.func.value.id == "m"):
+            continue
+        names = [k.value for k in n.keywords if k.arg == "name"]
+        for a in n.args:
+            if isinstance(a, ast.Call):
+                names += [k.value for k in a.keywords if k.arg == "name"]
+        for nm in names:
+            n_sites += 1
+            ok = isinstance(nm, ast.Call) and getattr(nm.func, "id", "") == "_unused_name" and nm.args and \
+                getattr(nm.args[0], "id", "") == "m"
+            if not ok:
+                bad.append((ext.path, n.lineno, ast.unparse(nm)))
+    return n_sites, bad
